@@ -939,6 +939,41 @@ func c19Encodings(c *Ctx, r *Report) {
 	}
 	find := c.SSAFunc(c.LookupFunc("pkg/lib", "FindInputEncoding"))
 	a, b := suffixes(rd), suffixes(find)
+	// FindInputEncoding may walk a table of (suffix, encoding) pairs instead of testing constants one by one
+	if find != nil && len(b) == 0 {
+		b = map[string]string{}
+		for _, file := range p.Syntax {
+			ast.Inspect(file, func(n ast.Node) bool {
+				cl, ok := n.(*ast.CompositeLit)
+				if !ok || len(cl.Elts) != 2 {
+					return true
+				}
+				sfx, ok1 := constStrOf(p.TypesInfo, cl.Elts[0])
+				if kv, isKV := cl.Elts[0].(*ast.KeyValueExpr); isKV {
+					sfx, ok1 = constStrOf(p.TypesInfo, kv.Value)
+				}
+				second := cl.Elts[1]
+				if kv, isKV := second.(*ast.KeyValueExpr); isKV {
+					second = kv.Value
+				}
+				tv, ok2 := p.TypesInfo.Types[second]
+				if !ok1 || !ok2 || !strings.HasPrefix(sfx, ".") || tv.Value == nil || !types.Identical(tv.Type, encT.Type()) {
+					return true
+				}
+				if v, exact := constant.Int64Val(tv.Value); exact {
+					nm := strings.ToLower(consts[v])
+					what := "?"
+					for _, z := range []string{"bzip2", "gzip", "zlib", "zstd"} {
+						if strings.Contains(nm, z) {
+							what = z
+						}
+					}
+					b[sfx] = what
+				}
+				return true
+			})
+		}
+	}
 	// the read path may simply ask FindInputEncoding: one table, nothing to disagree
 	if rd != nil && find != nil && len(a) == 0 && len(b) >= 3 {
 		delegates := false
